@@ -19,6 +19,8 @@ Definition method_of (t : tok) : str :=
   | TableRow _ _ => $"render_table_row" | TableCell _ _ => $"render_table_cell"
   | ThematicBreak _ => $"render_thematic_break" | HtmlBlock _ => $"render_html_block"
   | Document _ => $"render_document"
+  | BlankLine => $"render_blank_line" | LinkRefDef _ => $"render_link_reference_definition"
+  | LinkRefDefBlock _ => $"render_link_reference_definition_block"
   end.
 
 (* the method is HtmlRenderer's own, or an override that returns super()'s result *)
@@ -38,6 +40,7 @@ Fixpoint plain_for (k : rkind) (tbl : list (str * str)) (t : tok) : bool :=
   let all := forallb (plain_for k tbl) in
   match t with
   | Math _ => match k with KMathJax => false | _ => true end
+  | BlankLine | LinkRefDef _ | LinkRefDefBlock _ => true     (* no HTML-family renderer has a method for them *)
   | Strong _ ch | Emphasis _ ch | Strikethrough ch | Link _ ch | AutoLink _ _ ch | EscapeSequence ch
   | Heading _ _ ch | SetextHeading _ _ ch | Quote ch | Paragraph ch | List _ _ ch | ListItem _ ch
   | TableRow _ ch | TableCell _ ch | Document ch => passthrough tbl (method_of t) && all ch
@@ -74,6 +77,7 @@ Theorem render_with_plain hl k tbl o t :
 Proof.
   induction t using tok_ind'; intros Hp sup hdr; cbn [render_with render]; cbn [plain_for method_of] in Hp;
     repeat match goal with H : AllP _ _ |- _ => unfold AllP in H end;
+    try reflexivity;
     try (rewrite via_passthrough by assumption; reflexivity);
     try (apply andb_true_iff in Hp; destruct Hp as [Hm Hp]; finish H Hp).
   - (* Math *) destruct k; try reflexivity. discriminate.
@@ -108,7 +112,7 @@ Fixpoint avoids (k : rkind) (ext : list str) (t : tok) : bool :=
   | _ => true
   end.
 
-Lemma method_in t : (match t with Math _ => True | _ => In (method_of t) render_methods end).
+Lemma method_in t : (match t with Math _ | BlankLine | LinkRefDef _ | LinkRefDefBlock _ => True | _ => In (method_of t) render_methods end).
 Proof. destruct t; cbn; tauto. Qed.
 
 Lemma pass_of tbl ext m : all_pass_except tbl ext = true -> In m render_methods ->
@@ -122,6 +126,7 @@ Proof.
   intros Ht. induction t using tok_ind'; intros Ha; cbn [avoids] in Ha;
     apply andb_true_iff in Ha; destruct Ha as [Hm Ha]; apply negb_true_iff in Hm; cbn [plain_for];
     repeat match goal with H : AllP _ _ |- _ => unfold AllP in H end;
+    try reflexivity;
     try (apply (pass_of tbl ext _ Ht); [cbn; tauto|exact Hm]);
     try (apply andb_true_iff; split; [apply (pass_of tbl ext _ Ht); [cbn; tauto|exact Hm]|];
          apply forallb_forall; intros tt Htt; rewrite Forall_forall in H; apply H; auto;
